@@ -483,6 +483,20 @@ def _c16_common_head(rec):
 
 
 # ----------------------------------------------------------------------------------------- C20
+@classifier("ignored-line-blanks-normalised")
+def _c20_blanks(rec):
+    """The layout stages that run before and after the rules (tab expansion outside literals, removal of trailing blanks) do not look at ignore
+    comments: an annotated line that ends in blanks, has a tab between code and comment or is indented with tabs comes back with those blanks
+    normalised - the same line up to `expandtabs(4)` and `rstrip()`, attributed to no rule."""
+    d = rec.get("detail") or {}
+    if rec.get("kind") != "ignored_line_not_carried_over" or d.get("attributed_rule") or rec.get("rule"):
+        return False
+    line = d.get("line") or ""
+    if line == line.expandtabs(4).rstrip():
+        return False  # nothing on this line for the layout stages to normalise
+    return d.get("line_present_up_to_tab_expansion_and_trailing_blanks") is True
+
+
 # ----------------------------------------------------------------------------------------- C01 / C02 / C19 (behavioural steps)
 _BEHAVIOUR_KINDS = ("step_changes_behaviour", "program_behaves_differently", "folded_program_behaves_differently", "deleted_code_was_observable",
                     "binding_structure_changed", "surface_name_lost", "client_behaves_differently", "preserved_name_lost")
